@@ -63,6 +63,20 @@ BUILTIN_DRIVER = r'''
 #include <emmintrin.h>
 typedef char v16qi_t __attribute__((vector_size(16)));
 int model_pmovmskb128(v16qi_t a);
+typedef int       v4si_t __attribute__((vector_size(16)));
+typedef long long v2di_t __attribute__((vector_size(16)));
+v4si_t model_pshufd(v4si_t a, int imm);
+v4si_t model_punpckldq128(v4si_t a, v4si_t b);
+v4si_t model_punpckhdq128(v4si_t a, v4si_t b);
+v2di_t model_punpcklqdq128(v2di_t a, v2di_t b);
+v2di_t model_punpckhqdq128(v2di_t a, v2di_t b);
+v2di_t model_pmuludq128(v4si_t a, v4si_t b);
+v2di_t model_psrlqi128(v2di_t a, int n);
+v2di_t model_psllqi128(v2di_t a, int n);
+v2di_t model_psrldqi128(v2di_t a, int nbits);
+v2di_t model_pslldqi128(v2di_t a, int nbits);
+#define SAME(x, y) (__builtin_memcmp(&(x), &(y), 16) == 0)
+#define CK(name, real, model) do { __m128i r_ = (real); __typeof__(model) m_ = (model); if (!SAME(r_, m_)) { printf("builtin model MISMATCH " name "\n"); return 1; } } while (0)
 int main(void) {
     uint64_t s = 0x9E3779B97F4A7C15ULL; int it, i; long n = 0;
     for (it = 0; it < 20000; it++) {
@@ -71,6 +85,26 @@ int main(void) {
         __m128i v = _mm_loadu_si128((const __m128i *) b);
         v16qi_t w; __builtin_memcpy(&w, b, 16);
         if (_mm_movemask_epi8(v) != model_pmovmskb128(w)) { printf("builtin model MISMATCH pmovmskb128\n"); return 1; }
+        {
+            unsigned char c[16];
+            __m128i u; v4si_t a4, b4; v2di_t a2, b2;
+            for (i = 0; i < 16; i++) { s ^= s << 13; s ^= s >> 7; s ^= s << 17; c[i] = (unsigned char) (s >> 24); }
+            u = _mm_loadu_si128((const __m128i *) c);
+            __builtin_memcpy(&a4, b, 16); __builtin_memcpy(&b4, c, 16); __builtin_memcpy(&a2, b, 16); __builtin_memcpy(&b2, c, 16);
+            CK("pshufd", _mm_shuffle_epi32(v, 0x1b), model_pshufd(a4, 0x1b));
+            CK("pshufd", _mm_shuffle_epi32(v, 0x44), model_pshufd(a4, 0x44));
+            CK("pshufd", _mm_shuffle_epi32(v, 0xd8), model_pshufd(a4, 0xd8));
+            CK("punpckldq", _mm_unpacklo_epi32(v, u), model_punpckldq128(a4, b4));
+            CK("punpckhdq", _mm_unpackhi_epi32(v, u), model_punpckhdq128(a4, b4));
+            CK("punpcklqdq", _mm_unpacklo_epi64(v, u), model_punpcklqdq128(a2, b2));
+            CK("punpckhqdq", _mm_unpackhi_epi64(v, u), model_punpckhqdq128(a2, b2));
+            CK("pmuludq", _mm_mul_epu32(v, u), model_pmuludq128(a4, b4));
+            CK("psrlqi", _mm_srli_epi64(v, 26), model_psrlqi128(a2, 26));
+            CK("psrlqi", _mm_srli_epi64(v, 63), model_psrlqi128(a2, 63));
+            CK("psllqi", _mm_slli_epi64(v, 12), model_psllqi128(a2, 12));
+            CK("psrldqi", _mm_srli_si128(v, 8), model_psrldqi128(a2, 64));
+            CK("pslldqi", _mm_slli_si128(v, 3), model_pslldqi128(a2, 24));
+        }
         n++;
     }
     printf("x86 builtin models: %ld differential executions agree\n", n);
